@@ -1,3 +1,4 @@
+import HttpcoreModel.Props.C02H2
 import HttpcoreModel.H1Obs
 /-!
 # C02 — Responses are delivered byte-exact, independent of network segmentation
